@@ -1,8 +1,8 @@
 #!/bin/bash
-# run every check of one tier and print a one-line summary each:  ./run_all.sh quick [seed]
+# run every check (or the listed ones) of one tier and print a one-line summary each:  ./run_all.sh quick [seed] ["01 03 ..."]
 cd "$(dirname "$0")"
-tier=${1:-quick}; seed=${2:-0}
-for i in 01 02 03 04 05 06 07 08 09 10 11 12 13 14 15 16 17 18 19 20; do
+tier=${1:-quick}; seed=${2:-0}; ids=${3:-01 02 03 04 05 06 07 08 09 10 11 12 13 14 15 16 17 18 19 20}
+for i in $ids; do
   s=$(date +%s)
   out=$(VERIF_SEED=$seed ./check C$i --tier $tier 2>&1); rc=$?
   e=$(date +%s)
